@@ -5,3 +5,128 @@ Theorem C09_python_identifier_valid : forall value prefix,
   mem_str (python_identifier value prefix false) GenTables.keywords = false.
 Proof. exact python_identifier_valid. Qed.
 Print Assumptions C09_python_identifier_valid.
+
+(* ---- second half: names of one scope never merge silently (Scopes.v) ---- *)
+From Coq Require Import NArith List Bool.
+Import ListNotations.
+Require Import OPC.Values OPC.ValuesThm.
+Require Import OPC.Scopes OPC.ScopesThm.
+
+(* (a) model attributes *)
+Theorem C09_attrs_distinct : forall prefix names,
+  g_no_raw_fallback prefix names = true ->
+  model_attrs prefix names = Ok (map (attr_init prefix) names) /\
+  NoDup (map a_py (map (attr_init prefix) names)) /\
+  map a_py (map (attr_init prefix) names) = map (fun n => python_identifier n prefix false) names.
+Proof. exact attrs_distinct. Qed.
+Print Assumptions C09_attrs_distinct.
+
+Theorem C09_attrs_valid : forall prefix names,
+  good_prefix prefix = true -> forallb g_xid names = true -> g_no_raw_fallback prefix names = true ->
+  exists props, model_attrs prefix names = Ok props /\ NoDup (map a_py props) /\
+    forall p, In p props -> is_identifier (a_py p) = true /\ mem_str (a_py p) GenTables.keywords = false.
+Proof. exact attrs_valid. Qed.
+Print Assumptions C09_attrs_valid.
+
+Theorem C09_attrs_last_pair_distinct : forall prefix props new props',
+  (forall o, In o props -> a_name o <> a_name new) ->
+  add_attr prefix props new = Ok props' ->
+  exists c others', props' = others' ++ [c] /\ a_name c = a_name new /\
+    (a_py c = a_py new \/ a_py c = py_raw prefix (a_name new)) /\
+    length others' = length props /\
+    forall i o o', nth_error props i = Some o -> nth_error others' i = Some o' ->
+      (o' = o \/ o' = attr_raw prefix o) /\
+      (a_py o = a_py new -> a_py o' <> a_py c) /\
+      (a_py c = a_py new -> a_py o' <> a_py c).
+Proof. exact attrs_last_pair_distinct. Qed.
+Print Assumptions C09_attrs_last_pair_distinct.
+
+Theorem C09_attrs_fold_last_step : forall prefix names props n r,
+  add_attrs prefix props (names ++ [n]) = Ok r ->
+  exists mid, add_attrs prefix props names = Ok mid /\ add_attr prefix mid (attr_init prefix n) = Ok r.
+Proof. exact add_attrs_snoc. Qed.
+Print Assumptions C09_attrs_fold_last_step.
+
+Theorem C09_attrs_distinct_refuted :
+  exists names props, NoDup names /\ model_attrs [102;105;101;108;100;95]%N names = Ok props /\
+    g_no_raw_fallback [102;105;101;108;100;95]%N names = false /\ ~ NoDup (map a_py props).
+Proof. exact attrs_distinct_refuted. Qed.
+Print Assumptions C09_attrs_distinct_refuted.
+
+Theorem C09_raw_fallback_not_identifier_refuted :
+  exists names props, forallb g_xid names = true /\ model_attrs [102;105;101;108;100;95]%N names = Ok props /\
+    g_no_raw_fallback [102;105;101;108;100;95]%N names = false /\
+    exists p, In p props /\ is_identifier (a_py p) = false.
+Proof. exact raw_fallback_not_identifier_refuted. Qed.
+Print Assumptions C09_raw_fallback_not_identifier_refuted.
+
+(* (b) endpoint parameters *)
+Theorem C09_conflict_check_terminates : forall prefix ps,
+  check_fuel prefix (S (length ps)) None ps = Some (check_params_ev prefix ps) /\
+  forall fuel, (2 <= fuel)%nat -> check_fuel prefix fuel None ps = Some (check_params_ev prefix ps).
+Proof. exact conflict_check_terminates. Qed.
+Print Assumptions C09_conflict_check_terminates.
+
+Theorem C09_check_params_keys : forall prefix ps out,
+  check_params prefix ps = Ok out -> map param_key out = map param_key ps.
+Proof. exact check_params_keys. Qed.
+Print Assumptions C09_check_params_keys.
+
+Theorem C09_params_distinct_quiet : forall prefix ps out,
+  check_params prefix ps = Ok out -> g_last_pass_quiet prefix ps = true ->
+  NoDup (map p_py out) /\ forall p, In p out -> reserved_param (p_py p) = false.
+Proof. exact params_distinct_quiet. Qed.
+Print Assumptions C09_params_distinct_quiet.
+
+Theorem C09_params_distinct : forall prefix ps out,
+  g_params_plain ps = true -> check_params prefix ps = Ok out ->
+  out = map (param_fix prefix) ps /\ NoDup (map p_py out) /\ forall p, In p out -> reserved_param (p_py p) = false.
+Proof. exact params_distinct. Qed.
+Print Assumptions C09_params_distinct.
+
+Theorem C09_model_params_distinct : forall prefix raw out,
+  g_no_raw_fallback prefix (map snd raw) = true ->
+  model_params prefix raw = Ok out ->
+  NoDup (map p_py out) /\ (forall p, In p out -> reserved_param (p_py p) = false) /\
+  (forall p, In p out -> In (p_loc p, p_name p) raw /\
+     p_py p = if reserved_param (py_default prefix (p_name p))
+              then python_identifier (py_default prefix (p_name p) ++ [95%N] ++ loc_str (p_loc p)) prefix false
+              else python_identifier (p_name p) prefix false) /\
+  length out = length raw.
+Proof. exact model_params_distinct. Qed.
+Print Assumptions C09_model_params_distinct.
+
+Theorem C09_params_distinct_refuted :
+  exists raw out, NoDup raw /\ model_params [102;105;101;108;100;95]%N raw = Ok out /\
+    g_last_pass_quiet [102;105;101;108;100;95]%N (order_params (map (param_init [102;105;101;108;100;95]%N) raw)) = false /\
+    ~ NoDup (map p_py out).
+Proof. exact params_distinct_refuted. Qed.
+Print Assumptions C09_params_distinct_refuted.
+
+(* (c) enum member keys (Values.v, shared with C14) *)
+Theorem C09_enum_member_keys : forall vs m, values_from_list vs = Some m -> NoDup (keys m).
+Proof. exact values_from_list_keys_nodup. Qed.
+Print Assumptions C09_enum_member_keys.
+
+(* (d) classes and modules *)
+Theorem C09_classes_distinct_or_error : forall prefix names cs errs,
+  model_classes prefix names = (cs, errs) ->
+  NoDup cs /\
+  (forall n, In n names -> In (class_of prefix n) cs) /\
+  (forall c, In c cs -> exists n, In n names /\ c = class_of prefix n) /\
+  (forall n, In n errs -> In n names) /\
+  (length cs + length errs = length names)%nat /\
+  (forall l1 n1 l2 n2 l3, names = l1 ++ n1 :: l2 ++ n2 :: l3 -> class_of prefix n1 = class_of prefix n2 -> In n2 errs).
+Proof. exact classes_distinct_or_error. Qed.
+Print Assumptions C09_classes_distinct_or_error.
+
+Theorem C09_add_class_fresh : forall prefix cs n cs',
+  add_class prefix cs n = Ok cs' -> ~ In (class_of prefix n) cs /\ cs' = cs ++ [class_of prefix n].
+Proof. exact add_class_fresh. Qed.
+Print Assumptions C09_add_class_fresh.
+
+Theorem C09_modules_unchecked_refuted :
+  exists names cs, model_classes [102;105;101;108;100;95]%N names = (cs, []) /\ NoDup cs /\ length cs = length names /\
+    ~ NoDup (map (module_of [102;105;101;108;100;95]%N) cs).
+Proof. exact modules_unchecked_refuted. Qed.
+Print Assumptions C09_modules_unchecked_refuted.
